@@ -36,5 +36,12 @@ CLAIMED = {
     'C06': ('Coq proof over Gallina model (theme builder order independence, bit-exact PRNG) + differential correspondence + repeat-run oracle (3 runs x 3 fresh processes, CLI incl. stderr)',
             'proved: theme builder independent of hash-set iteration order; random stream a function of the seed (prefix-stable, composable, in range). Not modelled in Coq: MultiError display, reuse attribute iteration, the rest of the pipeline - these are covered by the repeat-run oracle only', None),
     'C20': (T, 'theorems over all class lists / element lists / themes on the model of ThemeBuilder::build instantiated from the generated theme tables; finite side conditions by vm_compute over those tables; text classes are gated on a text element (K50), nested svg in a non-svg root (K52)', None),
+    'C14': (T, 'theorems generic in the number instance (exact rationals for rem_nonneg and the examples), execution on binary32; libm '
+            'functions and the sign of NaN outside the bit-exact model (tolerance check against Python math)',
+            'Coq theorems over an executable Gallina model of expression.rs / functions.rs (all token lists, all trees within the nesting '
+            'guard, all variable contexts satisfying vars_ok): print/evaluate agreement at the stated fuel, draw counting, rejection of '
+            'malformed input, no panic, no fuel exhaustion; tied to /repo on every run by regenerated tables (function names, operator '
+            'words, arities, nesting guard) and a bit-exact correspondence of the extracted model with the eval hooks; single evaluation '
+            'per rendered element across the element pipeline is searched by the document oracle, not proved'),
 }
 NA = {}
